@@ -5,6 +5,9 @@ CONSTANTS
   Prio = {1, 2}
   MaxTasks = 2
   MaxOps = 4
+  HkSet = {FALSE}
+  CondSet <- NoCondSet
+  CSet = {0}
 INVARIANT CallbackOnce
 INVARIANT CallbackAfterAll
 INVARIANT NoOverlap
